@@ -64,6 +64,19 @@ theorem branch_meets_doc (a : AOp) (h : a.isCmp = true) (short : Bool) (x y : W6
       cCmpS, cCmpU, BitVec.slt_eq_decide, BitVec.sle_eq_decide, BitVec.ult_eq_decide,
       BitVec.ule_eq_decide, gt_iff_lt, ge_iff_le] <;>
     first | rfl | simp [BitVec.toInt_inj, Bool.beq_eq_decide_eq, bne]
+/-- **BT / BF / BTS / BFS**: the interpreter takes the branch exactly when the documentation says so, for
+every register content (the short forms ignore the upper half) -/
+theorem bt_meets_doc (short neg : Bool) (x : W64) : interpBT short neg x = docBT short neg x := by
+  have h64 : ∀ v : W64, v.toInt = 0 ↔ v = 0 := by
+    intro v; constructor
+    · intro h; exact BitVec.eq_of_toInt_eq (by simpa using h)
+    · intro h; simp [h]
+  have h32 : ∀ v : BitVec 32, v.toInt = 0 ↔ v = 0 := by
+    intro v; constructor
+    · intro h; exact BitVec.eq_of_toInt_eq (by simpa using h)
+    · intro h; simp [h]
+  cases short <;> cases neg <;> simp [interpBT, docBT, h64, h32]
+
 
 theorem nodup_keys_unique {α β} [DecidableEq α] : ∀ (l : List (α × β)) (k : α) (v v' : β),
     (l.map (·.1)).Nodup → (k, v) ∈ l → (k, v') ∈ l → v = v'
